@@ -158,6 +158,142 @@ def analyse(ctx, res, reproduced_stall=None):
     return summ
 
 
+# ------------------------------------------------------------------ lock order
+BASELINE = os.path.join(vlib.VERIF, "checks", "c05_lockorder_baseline.json")
+
+
+def extract_lockgraph(ctx):
+    out = ctx.path("lockgraph.json")
+    p = subprocess.run(["go", "run", os.path.join(vlib.VERIF, "tools", "lockgraph", "main.go"), "-out", out],
+                       cwd=vlib.REPO, env=vlib.go_env(), capture_output=True, text=True, timeout=600)
+    if p.returncode != 0 or not os.path.exists(out):
+        raise vlib.Inconclusive("lockgraph extractor failed:\n" + (p.stdout + p.stderr)[-2000:])
+    g = json.load(open(out))
+    if g["functions"] < 500 or len(g["locks"]) < 10 or len(g["edges"]) < 30:
+        raise vlib.Inconclusive("lockgraph extraction looks empty: %d functions, %d locks, %d edges" % (
+            g["functions"], len(g["locks"]), len(g["edges"])))
+    return g
+
+
+def sccs(nodes, adj):
+    """Tarjan; returns list of sets."""
+    index, low, onst, st, out = {}, {}, set(), [], []
+    sys.setrecursionlimit(10000)
+
+    def strong(v):
+        index[v] = low[v] = len(index)
+        st.append(v)
+        onst.add(v)
+        for w in adj.get(v, ()):
+            if w not in index:
+                strong(w)
+                low[v] = min(low[v], low[w])
+            elif w in onst:
+                low[v] = min(low[v], index[w])
+        if low[v] == index[v]:
+            comp = set()
+            while True:
+                w = st.pop()
+                onst.discard(w)
+                comp.add(w)
+                if w == v:
+                    break
+            out.append(comp)
+    for v in nodes:
+        if v not in index:
+            strong(v)
+    return out
+
+
+def edge_id(e):
+    return "%s(%s)>%s(%s)" % (e["held"], e["hmode"], e["acq"], e["amode"])
+
+
+def tla_str(s):
+    return '"' + s.replace("\\", "/").replace('"', "'") + '"'
+
+
+def lock_order(ctx):
+    """Static half: extract the lock graph, let TLC look for deadlocks among the
+    pairs that lie on cycles.  Returns summary dict."""
+    g = extract_lockgraph(ctx)
+    adj = {}
+    nodes = set()
+    for e in g["edges"]:
+        adj.setdefault(e["held"], set()).add(e["acq"])
+        nodes.update((e["held"], e["acq"]))
+    cyc_nodes = set()
+    for comp in sccs(sorted(nodes), adj):
+        if len(comp) > 1 or any(n in adj.get(n, ()) for n in comp):
+            cyc_nodes |= comp
+    comp_of = {}
+    for comp in sccs(sorted(nodes), adj):
+        for n in comp:
+            comp_of[n] = frozenset(comp)
+    cyc_edges = [e for e in g["edges"] if e["held"] in cyc_nodes and comp_of[e["held"]] == comp_of[e["acq"]]]
+    baseline = json.load(open(BASELINE)) if os.path.exists(BASELINE) else {"accepted": []}
+    accepted = {a["edge"]: a for a in baseline["accepted"]}
+    live = [e for e in cyc_edges if edge_id(e) not in accepted]
+    summ = {"functions": g["functions"], "locks": len(g["locks"]), "edges": len(g["edges"]),
+            "edges_on_cycles": [edge_id(e) for e in cyc_edges],
+            "accepted_out_of_scope": sorted(set(edge_id(e) for e in cyc_edges) & set(accepted)),
+            "deadlocks": []}
+    for k in summ["accepted_out_of_scope"]:
+        ctx.log("NOTE lock-order cycle edge accepted as out of scope: %s (%s)" % (k, accepted[k]["reason"]))
+    # Self-test of the model on the accepted (out-of-scope) cycle: TLC must find
+    # the deadlock those pairs admit, otherwise the deadlock half is vacuous.
+    acc_edges = [e for e in cyc_edges if edge_id(e) in accepted]
+    if acc_edges:
+        paths = ["<< <<%s, %s>>, <<%s, %s>> >>" % (tla_str(e["held"]), tla_str(e["hmode"]), tla_str(e["acq"]), tla_str(e["amode"]))
+                 for e in acc_edges]
+        facts = ctx.path("LockOrderFacts_selftest.tla")
+        with open(facts, "w") as fh:
+            fh.write("--------------------------- MODULE LockOrderFacts ---------------------------\n")
+            fh.write("NThreads == 2\nPaths == {\n  %s\n}\n" % ",\n  ".join(paths))
+            fh.write("=============================================================================\n")
+        r = ctx.tlc("LockOrder", "LockOrder.cfg", workers=2, timeout=300, extra_files=[(facts, "LockOrderFacts.tla")],
+                    expect_violation=True)
+        if r["violated"] != "NoDeadlock":
+            raise vlib.Inconclusive("LockOrder self-test: TLC did not find the deadlock of the accepted AB/BA cycle")
+        summ["selftest"] = "TLC finds the deadlock of the accepted out-of-scope AB/BA cycle"
+    rounds = 0
+    while live and rounds < 6:
+        rounds += 1
+        locks = sorted({e["held"] for e in live} | {e["acq"] for e in live})
+        paths = ["<< <<%s, %s>>, <<%s, %s>> >>" % (tla_str(e["held"]), tla_str(e["hmode"]), tla_str(e["acq"]), tla_str(e["amode"]))
+                 for e in live]
+        paths += ["<< <<%s, \"w\">> >>" % tla_str(l) for l in locks if "w" in g["locks"].get(l, "")]
+        nthreads = 4 if len(paths) <= 6 else 3
+        facts = ctx.path("LockOrderFacts_%d.tla" % rounds)
+        with open(facts, "w") as fh:
+            fh.write("--------------------------- MODULE LockOrderFacts ---------------------------\n")
+            fh.write("\\* generated by checks/c05.py from tools/lockgraph output on %s\n" % vlib.REPO)
+            fh.write("NThreads == %d\nPaths == {\n  %s\n}\n" % (nthreads, ",\n  ".join(paths)))
+            fh.write("=============================================================================\n")
+        r = ctx.tlc("LockOrder", "LockOrder.cfg", workers=4, timeout=600, extra_files=[(facts, "LockOrderFacts.tla")],
+                    expect_violation=True)
+        if not r["violated"]:
+            if not r["ok"]:
+                raise vlib.Inconclusive("LockOrder TLC run failed:\n" + r["out"][-2000:])
+            break
+        # Identify the blocked threads' two-lock paths in the final state.
+        o = r["out"]
+        i = o.rfind("/\\ path =")
+        j = o.find("\n/\\ ", i + 5)
+        last = re.sub(r"\s+", " ", o[i:j if j > 0 else len(o)]) if i >= 0 else ""
+        blocked = [e for e in live if ('<<"%s", "%s">>, <<"%s", "%s">>' % (e["held"], e["hmode"], e["acq"], e["amode"])) in last]
+        if not blocked:
+            raise vlib.Inconclusive("could not identify deadlocked paths in TLC output:\n" + r["out"][-3000:])
+        key = "lockcycle:" + "+".join(sorted(edge_id(e) for e in blocked))
+        summ["deadlocks"].append(key)
+        ctx.disagreement(key, {"edges": blocked, "tlc_trace": r["out"][-6000:]},
+                         "lock order extracted from the source admits a deadlock (TLC trace): " + "; ".join(
+                             "%s holds %s(%s) and acquires %s(%s) via %s at %s" % (e["fn"], e["held"], e["hmode"], e["acq"], e["amode"], e["via"] or "itself", e["pos"])
+                             for e in blocked))
+        live = [e for e in live if e not in blocked]
+    return summ
+
+
 def run(ctx):
     # Half 1: the abstract protocol and the derivation of the scenario families.
     mc = ctx.tlc("Concurrency", "Concurrency.mc.cfg", workers=6, timeout=600)
@@ -169,6 +305,7 @@ def run(ctx):
     for w, stages in spec_fams.items():
         if stages:
             wanted.setdefault(FAMILY_OF_WRITER.get(w, w), set()).update(stages)
+    lo = lock_order(ctx)
     binary = build_binary(ctx, race=True)
     ms = 2500 if ctx.quick else 15000
     families = sorted(wanted) + ["Reads"]
@@ -219,6 +356,7 @@ def run(ctx):
                 "non-trivial = the family ran both DNS queries and admin operations concurrently under the race detector",
         "queries": total_q, "admin_ops": total_a, "race_reports": total_races,
         "families": {s["family"]: {k: s.get(k) for k in ("queries", "admin_ops", "races", "classes", "stalled")} for s in summaries},
+        "lock_order": lo,
         "conflict_pairs": fams[0]["pairs"], "spec_families": spec_fams,
         "samples": [summaries[0], summaries[-1]],
         "exhaustive": False,
